@@ -4,3 +4,4 @@ import CbGen.FfiTable
 import CbGen.ErrClass
 import CbGen.Generic
 import CbGen.Sleep
+import CbGen.RunLoop
